@@ -59,6 +59,13 @@ def _is_self_attr(e, selfn, attr):
     return is_attr_of(e, selfn, attr)
 
 
+def _is_buffer(ctx, f, e, selfn) -> bool:
+    """`e` denotes the row buffer: self._y (possibly through an alias) or a local that holds a fresh allocation of this class
+    (which is bound to self._y afterwards - R1 checks every binding of self._y)."""
+    v = _N(ctx, f, e)
+    return _is_self_attr(v, selfn, "_y") or _is_alloc(v)
+
+
 def _strip_float(e):
     while isinstance(e, ast.Call) and call_name(e) in ("float", "asarray") and len(e.args) == 1 and isinstance(e.func, (ast.Name, ast.Attribute)):
         e = e.args[0]
@@ -87,7 +94,7 @@ def r1_records_are_copies(ctx, rid):
             st = stmt_of(ctx.cfg(f), n)
             # (a) element store into the row buffer
             if isinstance(st, ast.Assign) and st.value is n and len(st.targets) == 1 and isinstance(st.targets[0], ast.Subscript) \
-                    and _is_self_attr(_N(ctx, f, st.targets[0].value), selfn, "_y"):
+                    and _is_buffer(ctx, f, st.targets[0].value, selfn):
                 ctx.ok(rid, f, st, f"`{n.id}` is copied into the row buffer by element assignment")
                 continue
             # (b) metadata reads
@@ -691,7 +698,7 @@ def r6_update_time_is_recorded_unchanged(ctx, rid):
     sn = init.self_name
     n_init = [s for s in walk_shallow(init.node) if isinstance(s, ast.Assign) and any(_is_self_attr(t, sn, "_n") for t in s.targets)]
     row0 = [s for s in walk_shallow(init.node) if isinstance(s, ast.Assign) and len(s.targets) == 1 and isinstance(s.targets[0], ast.Subscript)
-            and _is_self_attr(_N(ctx, init, s.targets[0].value), sn, "_y")]
+            and _is_buffer(ctx, init, s.targets[0].value, sn)]
     t_init = [s for s in walk_shallow(init.node) if isinstance(s, ast.Assign) and any(_is_self_attr(t, sn, "_t") for t in s.targets)]
     ctx.require(len(n_init) == 1 and len(row0) == 1 and len(t_init) == 1, f"{rid}: unrecognised initialisation in DDEHistory.__init__")
     nv = _N(ctx, init, n_init[0].value)
